@@ -7,6 +7,7 @@
 (*                              (T_N 1e5 rho_N A^2 (p1 + p2))    (abs. p)    *)
 (* with rho_m = (p1 + p2)/2 becomes, multiplied by (p1 + p2):               *)
 (*   p1^2 - p2^2 + (p1 + p2)^2 / 2 * 9.81e-5 dh = 0.1 (N/16 + zeta) m|m| + N m / 1000 *)
+(* (heights in levels of 20000/981 m: the height factor is 1e-3 per level)          *)
 (* POTENTIALS FIRST: the scenario chooses the absolute pressure of every    *)
 (* node (centibar), heights and demands; the loss coefficient of every      *)
 (* branch is derived (a rational).  Reported gas velocities and norm        *)
@@ -24,15 +25,16 @@ Flow(s, k) == s.nodes[k].d + LET Ch == Children(s, k) IN SumF([c \in Ch |-> Flow
 
 (* pressures in bar as rationals from centibar *)
 PB(s, k) == <<s.nodes[k].P, 100>>
-HM(s, k) == s.hm[s.nodes[k].h]
+(* heights: level index h in {1, 2, 3} = level 0, +1, -1; one level is 20000/981 m, so that                 *)
+(* g dh / (2 * 1e5) = 1e-3 per level (the harness builds junctions at exactly these heights)                  *)
+Level(s, k) == LET h == s.nodes[k].h IN IF h = 1 THEN 0 ELSE IF h = 2 THEN 1 ELSE -1
 (* required loss coefficient of the branch into node k *)
 Zeta(s, k) ==
     LET n == s.nodes[k]
         p1 == PB(s, n.par)  p2 == PB(s, k)
         m == Flow(s, k)
-        dh == HM(s, n.par) - HM(s, k)
-        lhs == RAdd(RSub(RMul(p1, p1), RMul(p2, p2)),
-                    RMul(RMul(RMul(RAdd(p1, p2), RAdd(p1, p2)), <<1, 2>>), RMul(<<981, 10000000>>, R(dh))))
+        dl == Level(s, n.par) - Level(s, k)
+        lhs == RAdd(RSub(RMul(p1, p1), RMul(p2, p2)), RMul(RMul(RAdd(p1, p2), RAdd(p1, p2)), <<dl, 1000>>))
         fixed == RAdd(RMul(<<1, 10>>, RMul(<<n.N, 16>>, R(m * AbsI(m)))), <<n.N * m, 1000>>)
     IN RDiv(RSub(lhs, fixed), RMul(<<1, 10>>, R(m * AbsI(m))))
 Admissible(s) ==
